@@ -3,6 +3,7 @@
 //!           nreq blocks [(okind payload gated ready) x L]; (op a)*]
 //! op 1 Poll a | 2 Advance a ms | 3 Complete a | 4 MakeReady a | 5 Call a
 //! durations (p1 of Fixed, Custom table): below 2^40 milliseconds, 2^40 + n = n nanoseconds
+//! retry: bit 0 = retry_on_reconnect; retry / 2 != 0: calls beyond the table fail with a connection failure for ever
 //! has_max: bit 0 = max_attempts(max) (else unlimited); has_max / 2 = 0 one service per request,
 //!          1 all requests through one ReconnectService, 2 through clones of one service
 //! trace = per event [r; kind; payload; attempts; wake mask; published state; calls started; finished;
@@ -67,6 +68,8 @@ struct PerReq {
 }
 
 struct Shared {
+    /// what calls beyond the scripted table do: false = Ok(0), true = Err(code k, flag true)
+    tail: bool,
     per: Mutex<Vec<PerReq>>,
     violations: AtomicUsize,
     t0: u64,
@@ -79,7 +82,8 @@ impl Shared {
         ((now_ns() - self.t0) / 1_000_000) as i128
     }
     fn entry(&self, id: usize, k: usize) -> Entry {
-        self.per.lock().unwrap()[id].entries.get(k).copied().unwrap_or_default()
+        let dflt = if self.tail { Entry { okind: 1, payload: k as i128, gated: 0, ready: 0 } } else { Entry::default() };
+        self.per.lock().unwrap()[id].entries.get(k).copied().unwrap_or(dflt)
     }
 }
 
@@ -170,7 +174,7 @@ impl Service<usize> for Scripted {
             p.released = false;
             p.blocked = None;
             p.calls.push((now, -1));
-            let e = p.entries.get(k).copied().unwrap_or_default();
+            let e = p.entries.get(k).copied().unwrap_or_default(); // beyond the table nothing is gated
             let rx = if e.gated != 0 {
                 let (tx, rx) = oneshot::channel();
                 p.tx = Some(tx);
@@ -204,7 +208,8 @@ type Res = Result<i128, RErr>;
 
 fn run(s: &[i128]) -> Vec<i128> {
     let (has_max, max, pred_mode, policy) = (zn(s, 0), zn(s, 1), zn(s, 2), zn(s, 3));
-    let (p1, p2, retry) = (zn(s, 4), zn(s, 5).max(0) as u64, zn(s, 6) != 0);
+    let (p1, p2, retry) = (zn(s, 4), zn(s, 5).max(0) as u64, zn(s, 6).rem_euclid(2) != 0);
+    let tail = zn(s, 6).div_euclid(2) != 0;
     let limited = has_max.rem_euclid(2) != 0;
     let handle_mode = has_max.div_euclid(2);
     let n = zn(s, 7).max(0) as usize;
@@ -232,7 +237,7 @@ fn run(s: &[i128]) -> Vec<i128> {
 
     let rt = paused_rt();
     rt.block_on(async move {
-        let sh = Arc::new(Shared { per: Mutex::new(per), violations: AtomicUsize::new(0), t0: now_ns(), starting: Mutex::new(None) });
+        let sh = Arc::new(Shared { tail, per: Mutex::new(per), violations: AtomicUsize::new(0), t0: now_ns(), starting: Mutex::new(None) });
         let pol = match policy {
             0 => ReconnectPolicy::None,
             1 => ReconnectPolicy::fixed(dur_of(p1)),
